@@ -287,7 +287,7 @@ def run(ctx):
 
 
 MANIFEST_ENTRY = {
-    "technique": "static analysis: priority-chain extraction (rules/chains.py) for the main resolution, the hydrate and ssr/csr variants and the sub-context memo, compared with the documented order; the negotiation clause of C12.R0 (the header / navigator fallback is find_locale's best match, evaluated over a closed universe); MIR path enumeration (py/mirsum.py) of resolve_locale_with_options: every path answers from the call's own options and consults no other state; canonical-form comparison of the once-then helpers and cookie acquisition; the from_str clauses of C13.R0 (the cookie codec accepts exactly the configured names); abstract evaluation (rules/localeeval.py) of init_i18n_context_with_options, init_subcontext_with_options, fetch_locale (with its helpers) and resolve_locale over a model of signals / memos (first value and the value after the inputs moved on), the cookie, the negotiated locale, <html lang> and the parent context, in the ssr / hydrate / csr configurations - the chain extraction is now the fallback",
+    "technique": "static analysis: priority-chain extraction (rules/chains.py) for the main resolution, the hydrate and ssr/csr variants and the sub-context memo, compared with the documented order; the negotiation clause of C12.R0 (the header / navigator fallback is find_locale's best match, evaluated over a closed universe); MIR path enumeration (py/mirsum.py) of resolve_locale_with_options: every path answers from the call's own options and consults no other state; canonical-form comparison of the once-then helpers and cookie acquisition; the from_str clauses of C13.R0 (the cookie codec accepts exactly the configured names); abstract evaluation (rules/localeeval.py) of init_i18n_context_with_options, init_subcontext_with_options, fetch_locale (with its helpers) and resolve_locale over a model of signals / memos (first value and the value after the inputs moved on), the cookie, the negotiated locale, <html lang> and the parent context, in the ssr / hydrate / csr configurations - the chain extraction is now the fallback; C15.R7: the default the resolution ends in is the configured default (C13.R0 / C19.R0 clauses); C15.R8: the parent of a sub-context is the enclosing context (run_as_children provides inside its own child owner, MIR, shared with C16.R3)",
     "level_text": "Structural, one clause: the order in which the sources of the initial locale are consulted is read off the code for each configuration (ssr / hydrate / csr / sub-context first and later runs) and compared with the documentation. What a running reactive graph shows is not applicable to static analysis and is not claimed.",
     "level_note": "Trusted: Option combinator semantics, leptos-use cookie/header handling. Not decided: run-time reactive behaviour.",
 }
